@@ -1988,6 +1988,10 @@ def check_C10(A, R, tier):
             R.ob("R10.2", "abort handler | %s | the aborted job is taken out of the ready set" % A.sname(s), ok,
                  detail="an offered job is aborted but stays in the set reported by query_ready_to_run()", site=A.site(w))
     R.floor("R10.2", "offered states handled by the abort handler", n, 3)
+    # ... 'nothing is ready' is what query_ready_to_run reports: the set follows the Ready class everywhere (= R17.4), not only in
+    # the abort handler (a job that leaves the class on another way - a tolerated out-of-order report - must leave the set too)
+    from rules_protocol import pairing as _pairing
+    _pairing(A, R, "R10.2p", C["Ready"], ("self", ready_f), "ready")
     if C.get("RunningSetField") is not None:
         # 'nothing running' is read off a maintained set: it must follow the Running class on every path (also those that fail a job)
         from rules_protocol import pairing
